@@ -1,5 +1,6 @@
 import RtcVerif.Model.C07
 import RtcVerif.Proofs.C07Lemmas
+import RtcVerif.Proofs.C07Code
 import Mathlib.Data.List.Pairwise
 /-!
 # C07 — ensemble members are isolated; controls are shared exactly per scenario tree
@@ -422,6 +423,102 @@ theorem legacy_interference_witness :
     effParam isConstParamLegacy [[0], [5]] [] 1 0 = 0 := by
   decide +kernel
 
+
+/-! ## the code-level definitions: distance fill and control-index allocation
+
+`Model/C07Code.lean` mirrors the Python statements (it is what `harness/translate_c07.py`
+regenerates from the source on every run, `Gen/ControlTreeAlloc.lean`); the theorems below carry the
+property theorems over to those definitions.  Helper lemmas: `Proofs/C07Code.lean`. -/
+
+/-- **Identical forecasts on the deciding window are never separated** (the distance table is the
+    one the code fills: sum over the forecast variables of the norm of the difference of the two
+    members' series on `[BT[L+1], BT[L+2])`): for any norm that makes the per-variable distance a
+    pseudo-metric and vanishes on the zero vector, two members of one branch at depth `L` with
+    equal forecast values are in one branch at depth `L + 1`. -/
+theorem identical_forecasts_not_separated (fc : Forecasts) (t0 : Rat) (bts : List Rat)
+    (nv k E a b L : Nat)
+    (hN : PairNormOK (fun v x y => pairNorm fc t0 bts 0 (L + 1) (L + 2) v x y))
+    (hz : ∀ l : List Rat, (∀ x ∈ l, x = 0) → fc.norm2 l = 0)
+    (hF : ∀ v, v < nv → fc.F v a = fc.F v b)
+    (hsame : pathOf (distSpec fc t0 bts nv) k E a L = pathOf (distSpec fc t0 bts nv) k E b L) :
+    pathOf (distSpec fc t0 bts nv) k E a (L + 1) = pathOf (distSpec fc t0 bts nv) k E b (L + 1) := by
+  obtain ⟨hsym, hnn, htri⟩ := distSpec_pseudometric fc t0 bts nv L hN
+  exact zero_distance_not_separated (distSpec fc t0 bts nv) k E a b L hsym hnn htri
+    (distSpec_zero_of_identical fc t0 bts nv L a b hz hF) hsame
+
+/-- **The index arrays the code builds satisfy the sharing law**: the arrays returned by the base
+    member loop around `ControlTreeMixin.discretize_control` (boolean-mask writes, block cache,
+    `count = max(count, max(indices) + 1)`) agree at a time stamp for two members exactly when the
+    members are in the same branch there.  `brs` is the branch dictionary in its iteration order;
+    `ChainOf`: the entries containing a member are its branches in increasing depth. -/
+theorem code_share_iff_same_branch (c : TreeCfg) (brs : List (List Nat × List Nat)) (ts : List Rat)
+    (count0 m1 m2 i L : Nat) (hts : ts ≠ []) (ht0 : ∀ t ∈ ts, c.t0 ≤ t)
+    (hch : ∀ m, m < c.E → ChainOf c brs m) (hm1 : m1 < c.E) (hm2 : m2 < c.E) (hi : i < ts.length)
+    (hL : levelAt c.t0 c.bts ts[i] = some L) :
+    ((ctrlLoopRef (discretizeControlRef brs c.t0 c.bts ts) stopArr (List.range c.E)
+        (count0, [], [])).2.2.getD m1 []).getD i 0 =
+      ((ctrlLoopRef (discretizeControlRef brs c.t0 c.bts ts) stopArr (List.range c.E)
+        (count0, [], [])).2.2.getD m2 []).getD i 0 ↔ c.path m1 L = c.path m2 L := by
+  obtain ⟨_, _, h⟩ := treeLoop_eq_model c brs ts count0 hts ht0 hch
+  rw [h m1 i hm1 hi, h m2 i hm2 hi]
+  exact share_iff_same_branch c ts count0 m1 m2 i L hm1 hm2 hi hL
+
+/-- **The `int16` guard on the code's own count**: when the count the base loop ends with is at
+    most `2^15`, every index the code stored is below that count and fits into `int16`. -/
+theorem code_indices_int16 (c : TreeCfg) (brs : List (List Nat × List Nat)) (ts : List Rat)
+    (count0 m i : Nat) (hts : ts ≠ []) (ht0 : ∀ t ∈ ts, c.t0 ≤ t)
+    (hch : ∀ m, m < c.E → ChainOf c brs m) (hm : m < c.E) (hi : i < ts.length) :
+    ((ctrlLoopRef (discretizeControlRef brs c.t0 c.bts ts) stopArr (List.range c.E)
+        (count0, [], [])).2.2.getD m []).getD i 0 <
+      (ctrlLoopRef (discretizeControlRef brs c.t0 c.bts ts) stopArr (List.range c.E) (count0, [], [])).1 ∧
+    (int16Ok (ctrlLoopRef (discretizeControlRef brs c.t0 c.bts ts) stopArr (List.range c.E)
+        (count0, [], [])).1 = true →
+      ((ctrlLoopRef (discretizeControlRef brs c.t0 c.bts ts) stopArr (List.range c.E)
+        (count0, [], [])).2.2.getD m []).getD i 0 ≤ 32767) := by
+  obtain ⟨h1, _, h⟩ := treeLoop_eq_model c brs ts count0 hts ht0 hch
+  obtain ⟨L, hL⟩ := levelAt_isSome c.t0 c.bts ts[i] (ht0 _ (List.getElem_mem hi))
+  obtain ⟨_, r2, r3⟩ := indices_in_range c ts count0 m i L hm hi hL
+  rw [h m i hm hi, h1]
+  exact ⟨r2, r3⟩
+
+/-- **The default member loop shares**: the base `discretize_control` with its slice cache, run
+    through the base member loop, hands every member the same slice, whose entries are the
+    model's shared block. -/
+theorem code_default_sharing (E n count0 m1 m2 : Nat) (hE : 0 < E) (hm1 : m1 < E) (hm2 : m2 < E) :
+    (ctrlLoopRef (defaultControlRef n) stopSlice (List.range E) (count0, none, [])).2.2.getD m1 (0, 0) =
+      (ctrlLoopRef (defaultControlRef n) stopSlice (List.range E) (count0, none, [])).2.2.getD m2 (0, 0) ∧
+    (ctrlLoopRef (defaultControlRef n) stopSlice (List.range E) (count0, none, [])).1 = count0 + n := by
+  obtain ⟨h, _⟩ := defaultLoop_eq_model E n count0 hE
+  rw [h]
+  obtain ⟨E', rfl⟩ : ∃ E', E = E' + 1 := ⟨E - 1, by omega⟩
+  refine ⟨?_, by rw [flatAlloc_shared]⟩
+  simp [List.getD_eq_getElem?_getD, hm1, hm2]
+
+/-- **The order hypothesis of the code-level theorems is satisfiable for every configuration**: the
+    model's dictionary (all branches level by level) lists, among the entries that contain a member,
+    exactly that member's branches in increasing depth.  (The real dictionary is filled depth-first;
+    the hypothesis is decided on every real dictionary by the correspondence check.) -/
+theorem tree_dictionary_chain (c : TreeCfg) (hk : 1 ≤ c.k) (m : Nat) (hm : m < c.E) :
+    ChainOf c (treeBranches c.dist c.k c.E c.bts.length) m :=
+  treeBranches_chain c hk m hm
+
+/-- **Isolation through the accessors**: `state_at` memoises the symbols it builds in a cache whose
+    key contains the ensemble member (with the variable, the time, `scaled`, `extrapolate`); in any
+    sequence of calls on one object every call returns what is built for its own arguments —
+    member `m`'s lookup of a control never returns the symbol built for another member. -/
+theorem accessor_memo_transparent {V : Type} (build : SymArgs → V) (calls : List SymArgs) :
+    memoRun symbolKeyRef build calls [] = calls.map build :=
+  memoRun_transparent symbolKeyRef build symbolKeyRef_injective calls [] (by simp)
+
+/-- a key that drops the member (one cached symbol per control for all members) is not transparent:
+    the second member's lookup returns the first member's symbol -/
+theorem accessor_shared_key_witness :
+    let build : SymArgs → Nat := fun a => a.member
+    let calls : List SymArgs := [⟨"u", 0, 1, false, true⟩, ⟨"u", 1, 1, false, true⟩]
+    memoRun (fun a => (a.var, a.dt, a.scaled, a.extrapolate)) build calls [] = [0, 0] ∧
+    memoRun symbolKeyRef build calls [] = [0, 1] := by
+  decide +kernel
+
 /-! ## non-vacuity: concrete instances meeting the hypotheses -/
 
 /-- a 4-member example: distances on the first segment -/
@@ -453,5 +550,38 @@ example : (List.range 3).map (fun m => (List.range 2).map (flatIdx .perMember 3 
 
 example : routed ⟨[⟨[1, 3], [], [], 1, [], []⟩, ⟨[2, 3], [], [], 1, [], []⟩], []⟩ 1
     = some ⟨[2, 3], [], [], 1, [], []⟩ := by decide +kernel
+
+-- the model's own dictionary satisfies the order hypothesis of the code-level theorems
+example : ∀ m, m < 4 → ChainOf exCfg (treeBranches exCfg.dist exCfg.k exCfg.E exCfg.bts.length) m := by
+  unfold ChainOf
+  decide +kernel
+
+-- the code-level loop on that dictionary: the arrays of `treeIdx` above, count 6
+example : ctrlLoopRef (discretizeControlRef (treeBranches exCfg.dist 2 4 2) 0 [1, 2] [0, 1, 2])
+    stopArr (List.range 4) (0, [], []) |>.2.2 = [[0, 1, 2], [0, 1, 3], [0, 4, 5], [0, 4, 5]] := by
+  decide +kernel
+
+example : (ctrlLoopRef (discretizeControlRef (treeBranches exCfg.dist 2 4 2) 0 [1, 2] [0, 1, 2])
+    stopArr (List.range 4) (0, [], [])).1 = 6 := by decide +kernel
+
+example : (ctrlLoopRef (defaultControlRef 3) stopSlice (List.range 3) (7, none, [])).2.2
+    = [(7, 10), (7, 10), (7, 10)] := by decide +kernel
+
+/-- a one-sample forecast per member (value = member id) with the absolute value as norm -/
+def exFc : Forecasts := ⟨fun l => |l.headD 0|, fun _ _ => [0], fun _ e => [(e : Rat)]⟩
+
+-- the norm hypothesis of `identical_forecasts_not_separated` is satisfiable with distinct members
+example : PairNormOK (fun v x y => pairNorm exFc 0 [0] 0 (0 + 1) (0 + 2) v x y) := by
+  have h : ∀ v x y, pairNorm exFc 0 [0] 0 (0 + 1) (0 + 2) v x y = |(x : Rat) - y| := by
+    intro v x y
+    simp [pairNorm, exFc, winRef, btAt, geBT, ltBT, selMask, subVec]
+  refine ⟨?_, ?_, ?_⟩
+  · intro v a b; rw [h]; exact abs_nonneg _
+  · intro v a b; rw [h, h]; exact abs_sub_comm _ _
+  · intro v a b c; simp only [h]; exact abs_sub_le _ _ _
+
+example : distSpec exFc 0 [0] 2 0 1 3 = 4 := by
+  simp [distSpec, pairNorm, exFc, winRef, btAt, geBT, ltBT, selMask, subVec, List.range_succ]
+  norm_num
 
 end RtcVerif.C07
